@@ -36,6 +36,9 @@ type kase struct {
 	// Emptied (linear kinds): the sequence held two letters and was cut back to length zero, so it is
 	// empty but owns storage (what Truncate(s, s, k, k) or a reused template leaves)
 	Emptied bool `json:"emptied,omitempty"`
+	// Names: "" rows r0, r1, ...; "same" every row is called "read"; "none" every row has the empty name
+	// (rows are told apart by their position, never by what they are called)
+	Names string `json:"names,omitempty"`
 }
 
 var alphas = map[string]alphabet.Alphabet{
@@ -147,7 +150,15 @@ func qual(r, i int) alphabet.Qphred { return alphabet.Qphred(10 + 7*r + i) }
 
 func build(k kase) object {
 	a := alphas[k.Alpha]
-	mkLin := func(r int, d rowDef, q bool) seq.Sequence {
+	mkLin := func(r int, d rowDef, q bool) (made seq.Sequence) {
+		defer func() {
+			switch n, ok := made.(interface{ SetName(string) error }); {
+			case ok && k.Names == "same":
+				n.SetName("read")
+			case ok && k.Names == "none":
+				n.SetName("")
+			}
+		}()
 		if q {
 			ql := make([]alphabet.QLetter, len(d.Letters))
 			for i := range ql {
@@ -663,7 +674,7 @@ func search(c *enum.Ctx, base kase, depth int, states, trans, traces *atomic.Int
 }
 
 func run(c *enum.Ctx) {
-	c.Rule("initial objects: linear.Seq/QSeq for every letter string of length 0..3 (algebra-only for 4..5) over paired letters {a,c,G,n,-} (and RNA/redundant alphabets on fixed words), alignment.Seq/QSeq grids 1..3 rows x 0..4 columns, multi.Multi with every layout of 1..3 rows (offsets 0..2, lengths 1..3; plain and quality rows), multi.Set; then breadth-first search over operation sequences of depth <=3 (thorough 4; linear 4/5) over {RevComp, Reverse, Clone-and-continue-on-copy, Clone-and-keep, Set first, Set last, SetOffset, Delete row, Append (the letter depends on the step), go-on-with-the-other-copy, RevComp of the first / last row through its row view, Reverse of the first row}; three-row Multi layouts with an empty row; objects all of whose rows lie at offsets of +-2^40 and just around +-2^31; the size ladder 7..4097 (thorough 16385) - every 2^k-1, 2^k, 2^k+1 (also 3*2^k, 10^j-1, 10^j, 10^j+1, 5*10^j) letters / columns / row length - for every kind under nine fixed operation lists; linear sequences also start emptied (length 0 over storage of two letters); after every operation the object's snapshot (row names, coordinates, strands, letters, qualities) is related to the previous one and every retained clone/original must be unchanged; states de-duplicated on the snapshot of the object plus retained copies (first two levels unmerged); non-trivial = every applicable operation sequence")
+	c.Rule("initial objects: linear.Seq/QSeq for every letter string of length 0..3 (algebra-only for 4..5) over paired letters {a,c,G,n,-} (and RNA/redundant alphabets on fixed words), alignment.Seq/QSeq grids 1..3 rows x 0..4 columns, multi.Multi with every layout of 1..3 rows (offsets 0..2, lengths 1..3; plain and quality rows), multi.Set; then breadth-first search over operation sequences of depth <=3 (thorough 4; linear 4/5) over {RevComp, Reverse, Clone-and-continue-on-copy, Clone-and-keep, Set first, Set last, SetOffset, Delete row, Append (the letter depends on the step), go-on-with-the-other-copy, RevComp of the first / last row through its row view, Reverse of the first row}; three-row Multi layouts with an empty row; rows left of the origin (negative odd and even spans); rows that share a name or have none; objects all of whose rows lie at offsets of +-2^40 and just around +-2^31; the size ladder 7..4097 (thorough 16385) - every 2^k-1, 2^k, 2^k+1 (also 3*2^k, 10^j-1, 10^j, 10^j+1, 5*10^j) letters / columns / row length - for every kind under nine fixed operation lists; linear sequences also start emptied (length 0 over storage of two letters); after every operation the object's snapshot (row names, coordinates, strands, letters, qualities) is related to the previous one and every retained clone/original must be unchanged; states de-duplicated on the snapshot of the object plus retained copies (first two levels unmerged); non-trivial = every applicable operation sequence")
 	c.Assume("column-stored alignments are used at offset 0 (their column accessors take raw indices)", "single Reverse is checked against its documented meaning (letters reversed); Multi row coordinates after Reverse are not constrained")
 	depthLin, depthOther := 4, 3
 	if !c.Quick {
@@ -795,6 +806,26 @@ func run(c *enum.Ctx) {
 				rows = []rowDef{{base, "acG"}, {base + 2, "n-"}, {base + 1, "Gca"}}
 			}
 			jobs = append(jobs, job{kase{Kind: kind, Alpha: "DNAgapped", Rows: rows}, -1})
+		}
+	}
+	// rows left of the origin (spans with a negative and odd, a negative and even sum of the ends), and rows
+	// that share a name or have none
+	for _, rows := range [][]rowDef{
+		{{-8, "acGn-ac"}, {-6, "Gca"}}, {{-3, "acG"}}, {{-3, "ac"}, {-2, "G"}}, {{-5, "a"}, {-4, "cG"}, {-7, "n-a"}}, {{-1, "ac"}, {0, "G"}}, {{-2, "acG"}, {1, "n"}},
+	} {
+		for _, kind := range []string{"multi", "mqulti", "set"} {
+			jobs = append(jobs, job{kase{Kind: kind, Alpha: "DNAgapped", Rows: rows}, -1})
+		}
+	}
+	for _, names := range []string{"same", "none"} {
+		for _, rows := range [][]rowDef{{{0, "acG"}, {1, "n-"}}, {{2, "ac"}, {0, "Gca"}, {1, "c"}}} {
+			for _, kind := range []string{"multi", "mqulti", "set", "aseq", "aqseq"} {
+				r := rows
+				if kind == "aseq" || kind == "aqseq" {
+					r = []rowDef{{0, "acG"}, {0, "n-c"}}
+				}
+				jobs = append(jobs, job{kase{Kind: kind, Alpha: "DNAgapped", Rows: r, Names: names}, -1})
+			}
 		}
 	}
 	// a Multi of two rows of 8200 letters (thorough: more) - beyond any per-row work threshold
